@@ -13,7 +13,7 @@ CHECK = {
     "manifest": {
         "engine": "ENUM",
         "technique": "bounded-exhaustive enumeration against a reference model",
-        "text": "The real reference-server middleware is driven, without network, with every pair of (expected side: 3 HTTP versions x GET/POST x 3 protocols x 2 codecs x 6 compressions x TLS x client cert = 864) x (every request a client can produce, incl. Connect unary/stream/GET framing, bare gRPC content types, identity spelled out = 672) and judged by a truth table from the property text: no feedback iff all aspects agree, at least one line `<test name>: ...` mentioning every deviating aspect, every line attributable to a deviating aspect; plus same test twice, name histories up to length 4, HTTP trailers, missing/empty test name (inner handler not called, error response). Timeout headers: per protocol every string of length <=4 (quick) / <=6 (thorough) over {0,1,9,H,M,S,m,u,n,+,-,space,x}, digit strings of length 7..12 with every unit / none / a bad unit, and computed boundary numbers, against a math/big grammar-and-value model (unit c12-enum). Unit c12-chain runs the same truth table through the handler chain createServer really installs (BidiStream-over-HTTP/1.1 wrapper, mux, checks, raw responder, CORS, h2c) over real connections: 6 connection kinds (HTTP/1.1 client -> HTTP/1.1 server, h2c -> HTTP/2 server, HTTP/1.1 client -> HTTP/2 server, each plain and over TLS) x all 6 RPC procedure paths (Unary, IdempotentUnary, ClientStream, ServerStream, BidiStream, Unimplemented) x 5 protocol shapes x 2 codecs x 2 (thorough: 6) compressions = 720 (2160) requests, each against 144 (thorough: 648, incl. expected client cert) expected sides; feedback lines are attributed by the unique test name after graceful shutdown. Timeout model: accepted iff in the protocol's grammar, context value = digits x unit saturating at MaxInt64 ns, header gone at the inner handler, no context deadline, createRequestInfo echoes the milliseconds.",
+        "text": "The real reference-server middleware is driven, without network, with every pair of (expected side: 3 HTTP versions x GET/POST x 3 protocols x 2 codecs x 6 compressions x TLS x client cert = 864) x (every request a client can produce, incl. Connect unary/stream/GET framing, bare gRPC content types, identity spelled out = 672) and judged by a truth table from the property text: no feedback iff all aspects agree, at least one line `<test name>: ...` mentioning every deviating aspect, every line attributable to a deviating aspect; plus same test twice, name histories up to length 4, overlapping requests (2 and 3 requests of the same / of different test names in flight together, the inner handler parked on a channel, released in every order: every request after the first of a name is flagged at the moment it arrives, the others are not; channel-forced schedule, no timing), HTTP trailers, missing/empty test name (inner handler not called, error response). Timeout headers: per protocol every string of length <=4 (quick) / <=6 (thorough) over {0,1,9,H,M,S,m,u,n,+,-,space,x}, digit strings of length 7..12 with every unit / none / a bad unit, and computed boundary numbers, against a math/big grammar-and-value model (unit c12-enum). Unit c12-chain runs the same truth table through the handler chain createServer really installs (BidiStream-over-HTTP/1.1 wrapper, mux, checks, raw responder, CORS, h2c) over real connections: 6 connection kinds (HTTP/1.1 client -> HTTP/1.1 server, h2c -> HTTP/2 server, HTTP/1.1 client -> HTTP/2 server, each plain and over TLS) x all 6 RPC procedure paths (Unary, IdempotentUnary, ClientStream, ServerStream, BidiStream, Unimplemented) x 5 protocol shapes x 2 codecs x 2 (thorough: 6) compressions = 720 (2160) requests, each against 144 (thorough: 648, incl. expected client cert) expected sides; feedback lines are attributed by the unique test name after graceful shutdown. Timeout model: accepted iff in the protocol's grammar, context value = digits x unit saturating at MaxInt64 ns, header gone at the inner handler, no context deadline, createRequestInfo echoes the milliseconds.",
         "note": "Synthetic requests (no real HTTP parsing); keyword-based notion of 'mentions the aspect'; the inner handler is a recorder, createRequestInfo is called on the context it receives as impl.go does.",
         "design_ref": "DESIGN.md §2.2, §4 C12",
     },
